@@ -715,7 +715,7 @@ def _find_text_delim_idx(region_str):
     a string.
     """
     # keywords are case-insensitive (as everywhere else in the parser)
-    pattern = re.compile(r'(text\s*=\s*[{\'"])', re.IGNORECASE)
+    pattern = re.compile(r'((?:text|tag)\s*=\s*[{\'"])', re.IGNORECASE)
     idx0 = []
     delim = []
     start_idx = []
